@@ -1,5 +1,199 @@
-import FV.Model.PB
+import FV.Proofs.PB
+/-
+  C16 — Pseudo-Boolean expression algebra preserves integer semantics.
+
+  Model: `FV/Model/PB.lean` (`Literal`, `Term`, `Expr`, `Ineq` of tools/rect/pseudobool.py, with `Expr.__mul__`
+  repaired by fixes/C16_mul_constant.diff).  Semantics (`FV/Proofs/PB.lean`): `σ : V → Bool` is a truth assignment,
+  `litVal`, `termVal`, `Expr.eval` the integer value of a literal / term / expression, `Ineq.holds` the truth of a
+  normalised inequality `lhs ⋈ rhs`, `Num.toInt` Python's `int()`.
+
+  Every theorem is for all expressions, operands, multipliers (ints and finite floats, any sign, zero) and assignments.
+-/
 namespace FV.C16
 open FV.PB
-theorem stub : (1 : Nat) = 1 := rfl
+
+variable {V : Type} [DecidableEq V]
+
+/-! ### the value of a built expression equals the value computed from its operands -/
+
+/-- `e + x` for every kind of operand (`str`, `Literal`, `Term`, number, `Expr`) -/
+theorem eval_add (σ : V → Bool) (e : Expr V) (x : Operand V) : (e.add x).eval σ = e.eval σ + x.val σ :=
+  Expr.eval_add σ e x
+
+/-- `e - x` for every kind of operand -/
+theorem eval_sub (σ : V → Bool) (e : Expr V) (x : Operand V) : (e.sub x).eval σ = e.eval σ - x.val σ :=
+  Expr.eval_sub σ e x
+
+/-- `e * n` / `n * e` (repaired code): the whole expression, constant included, is multiplied by `int(n)` -/
+theorem eval_mul (σ : V → Bool) (e : Expr V) (n : Num) : (e.mul n).eval σ = e.eval σ * n.toInt :=
+  Expr.eval_mul σ e n
+
+/-- `-l` on a literal is its complement -/
+theorem eval_neg (σ : V → Bool) (l : Literal V) : litVal σ l.neg = 1 - litVal σ l := litVal_neg σ l
+
+/-- `-t` on a term is arithmetic negation -/
+theorem eval_neg_term (σ : V → Bool) (t : Term V) : termVal σ t.neg = - termVal σ t := termVal_neg σ t
+
+/-- `l * n`, `n * l` -/
+theorem eval_lit_mul (σ : V → Bool) (l : Literal V) (n : Num) : termVal σ (l.mul n) = litVal σ l * n.toInt :=
+  termVal_litMul σ l n
+
+/-- `t * n`, `n * t` -/
+theorem eval_term_mul (σ : V → Bool) (t : Term V) (n : Num) : termVal σ (t.mul n) = termVal σ t * n.toInt :=
+  termVal_termMul σ t n
+
+/-! ### a built inequality holds exactly when the direct comparison holds -/
+
+/-- all operator strings accepted by `Ineq.__init__` (`>=`, `<=`, `>`, `<`, `=`, `==`) -/
+theorem ineq_holds_iff (σ : V → Bool) (a b : Expr V) (o : CmpOp) :
+    (Ineq.make a b o).holds σ ↔ o.rel (a.eval σ) (b.eval σ) :=
+  Ineq.holds_make σ a b o
+
+/-- the left-hand side of a built inequality carries no constant (it is moved into `rhs`) -/
+theorem ineq_lhs_const (a b : Expr V) (o : CmpOp) : (Ineq.make a b o).lhs.c = 0 := Ineq.make_lhs_c a b o
+
+/-! ### normal form: no zero or negative coefficient, no variable twice -/
+
+theorem normal_form_empty : (⟨0, []⟩ : Expr V).NF := nf_empty
+theorem normal_form_add {e : Expr V} (x : Operand V) (h : e.NF) : (e.add x).NF := Expr.nf_add x h
+theorem normal_form_sub {e : Expr V} (x : Operand V) (h : e.NF) : (e.sub x).NF := Expr.nf_sub x h
+theorem normal_form_mul {e : Expr V} (n : Num) (h : e.NF) : (e.mul n).NF := Expr.nf_mul n h
+theorem normal_form_ineq {a b : Expr V} (o : CmpOp) (ha : a.NF) (hb : b.NF) : (Ineq.make a b o).lhs.NF :=
+  Ineq.nf_make o ha hb
+
+/-- the invariant over whole Python expressions: whatever sequence of operators (including reflected ones and
+    direct `Ineq(a, b, op)` calls) built it, an `Expr` is in normal form and so is the left side of an `Ineq`
+    (`Val.NF`) -/
+theorem normal_form (t : Tree V) (v : Val V) (h : t.run = .ok v) : v.NF := Tree.run_nf t v h
+
+theorem normal_form_expr (t : Tree V) (e : Expr V) (h : t.run = .ok (.expr e)) :
+    (∀ x ∈ e.t, 0 < x.c) ∧ (e.t.map (·.L.v)).Nodup := Tree.run_nf t _ h
+
+theorem normal_form_ineq_tree (t : Tree V) (q : Ineq V) (h : t.run = .ok (.ineq q)) :
+    (∀ x ∈ q.lhs.t, 0 < x.c) ∧ (q.lhs.t.map (·.L.v)).Nodup := Tree.run_nf t _ h
+
+/-! ### whole expression trees -/
+
+/-- Under every assignment the object Python builds from an expression tree agrees with the tree evaluated
+    directly with integers (`Tree.den`; for a comparison: the built `Ineq` holds iff the direct comparison
+    `Tree.truth` holds).  Covers all operators, reflected forms and operand kinds of the model. -/
+theorem eval_tree (σ : V → Bool) (t : Tree V) (v : Val V) (h : t.run = .ok v) : v.Sound σ t := by
+  induction t generalizing v with
+  | str s => simp [Tree.run] at h; subst h; simp [Val.Sound, Val.val, Tree.den]
+  | num n => simp [Tree.run] at h; subst h; simp [Val.Sound, Val.val, Tree.den]
+  | lit s b => simp [Tree.run] at h; subst h; simp [Val.Sound, Val.val, Tree.den]
+  | neg a ih =>
+    simp only [Tree.run, bind, Except.bind] at h
+    cases ha : a.run with
+    | error e => simp [ha] at h
+    | ok x =>
+      simp only [ha] at h
+      have hs := ih x ha
+      obtain ⟨h1, h2⟩ := pyNeg_sound σ h
+      cases x <;> simp [pyNeg] at h <;> subst h <;>
+        simp_all [Val.Sound, Val.val, Tree.den, litVal_neg, termVal_neg, Num.toInt_neg]
+  | mul a b iha ihb =>
+    simp only [Tree.run, bind, Except.bind] at h
+    cases ha : a.run with
+    | error e => simp [ha] at h
+    | ok x =>
+      cases hb : b.run with
+      | error e => simp [ha, hb] at h
+      | ok y =>
+        simp only [ha, hb] at h
+        have hx := iha x ha
+        have hy := ihb y hb
+        obtain ⟨h1, h2⟩ := pyMul_sound σ h
+        cases x <;> cases y <;> simp only [pyMul] at h <;>
+          first
+          | (simp at h; done)
+          | (cases v <;> simp_all [Val.Sound, Val.isIneq, Tree.den])
+  | add a b iha ihb =>
+    simp only [Tree.run, bind, Except.bind] at h
+    cases ha : a.run with
+    | error e => simp [ha] at h
+    | ok x =>
+      cases hb : b.run with
+      | error e => simp [ha, hb] at h
+      | ok y =>
+        simp only [ha, hb] at h
+        have hx := iha x ha
+        have hy := ihb y hb
+        obtain ⟨h1, h2⟩ := pyAdd_sound σ h
+        cases x <;> cases y <;> simp only [pyAdd, addLT, Val.operand?] at h <;>
+          first
+          | (simp at h; done)
+          | (cases v <;> simp_all [Val.Sound, Val.isIneq, Tree.den])
+  | sub a b iha ihb =>
+    simp only [Tree.run, bind, Except.bind] at h
+    cases ha : a.run with
+    | error e => simp [ha] at h
+    | ok x =>
+      cases hb : b.run with
+      | error e => simp [ha, hb] at h
+      | ok y =>
+        simp only [ha, hb] at h
+        have hx := iha x ha
+        have hy := ihb y hb
+        obtain ⟨h1, h2⟩ := pySub_sound σ h
+        cases x <;> cases y <;> simp only [pySub, Val.operand?] at h <;>
+          first
+          | (simp at h; done)
+          | (cases v <;> simp_all [Val.Sound, Val.isIneq, Tree.den])
+  | cmp o a b iha ihb =>
+    simp only [Tree.run, bind, Except.bind] at h
+    cases ha : a.run with
+    | error e => simp [ha] at h
+    | ok x =>
+      cases hb : b.run with
+      | error e => simp [ha, hb] at h
+      | ok y =>
+        simp only [ha, hb] at h
+        have hx := iha x ha
+        have hy := ihb y hb
+        obtain ⟨q, hq, hh⟩ := pyCmp_sound σ h
+        subst hq
+        have hyi : y.isIneq = false := by
+          cases y <;> simp [Val.isIneq]
+          cases x <;> simp [pyCmp, cmpPB, exprOf, Val.operand?, bind, Except.bind] at h
+        cases x <;> cases y <;> simp only [pyCmp] at h <;>
+          first
+          | (simp at h; done)
+          | (simp [Val.isIneq] at hyi; done)
+          | (simp_all [Val.Sound, Tree.truth])
+  | ineq s a b iha ihb =>
+    simp only [Tree.run, bind, Except.bind] at h
+    cases ha : a.run with
+    | error e => simp [ha] at h
+    | ok x =>
+      cases hb : b.run with
+      | error e => simp [ha, hb] at h
+      | ok y =>
+        simp only [ha, hb] at h
+        have hx := iha x ha
+        have hy := ihb y hb
+        obtain ⟨q, o, ho, hq, hh⟩ := pyIneq_sound σ h
+        subst hq
+        cases x <;> cases y <;> simp only [pyIneq] at h <;> try (simp at h; done)
+        simp_all [Val.Sound, Tree.truth]
+
+/-! ### non-vacuity: concrete instances -/
+
+/-- `(a + 3) * 2` is `2a + 6` (it was `2a + 3` before the repair) -/
+example : (((⟨0, []⟩ : Expr String).add (.lit ⟨"a", true⟩)).add (.num (.int 3))).mul (.int 2)
+    = ⟨6, [⟨⟨"a", true⟩, 2⟩]⟩ := by decide
+
+/-- `a - 2*b + (¬a) * -3` runs, is an `Expr`, and is in normal form `4 a + 2 ¬b − 5` (variables `0 = a`, `1 = b`) -/
+example : (Tree.add (.sub (.add (.lit 0 true) (.num (.int 0))) (.mul (.lit 1 true) (.num (.int 2))))
+      (.mul (.neg (.lit 0 true)) (.num (.int (-3))))).run
+    = .ok (.expr (⟨-5, [⟨⟨0, true⟩, 4⟩, ⟨⟨1, false⟩, 2⟩]⟩ : Expr Nat)) := by rfl
+
+/-- a comparison through the reflected operator: `2 <= a + b` is `a + b >= 2` -/
+example : (Tree.cmp .le (.num (.int 2)) (.add (.lit 0 true) (.lit 1 true))).run
+    = .ok (.ineq (⟨⟨0, [⟨⟨0, true⟩, 1⟩, ⟨⟨1, true⟩, 1⟩]⟩, 2, .ge⟩ : Ineq Nat)) := by rfl
+
+/-- a float multiplier is truncated by `int()`: `(a + 1) * 2.75 = 2a + 2` -/
+example : (Tree.mul (.add (.lit 0 true) (.num (.int 1))) (.num (.flt 11 4))).run
+    = .ok (.expr (⟨2, [⟨⟨0, true⟩, 2⟩]⟩ : Expr Nat)) := by rfl
+
 end FV.C16
